@@ -62,6 +62,13 @@ def run(ctx):
         ctx.cov["entrypoints_exercised"] = sorted(set(l[8:] for l in res["trace"] if l.startswith("# entry ")))
         if any(l.startswith("# aborted") for l in res["trace"]):
             ctx.notes.append("the run stopped at the first unbounded call")
+    # field values that a handler ACCEPTS are read again by the block hooks: the gauge suite submits every malformed weight from a
+    # delegator and from an operator and runs the blocks across the next epoch boundaries; a panic there (halt / crash of the
+    # process) is a panic caused by an untrusted field value
+    r2 = fw.corr(ctx, "gauge", 12 if ctx.thorough() else 2, driver_suite=False, timeout=900)
+    if r2 is not None:
+        r2["oracle_fails"] = [f for f in r2["oracle_fails"] if f["check"] in ("no_panic", "no_halt", "no_crash", "hang")]
+        fw.report_corr(ctx, "gauge", r2, known_features=lambda f: {"check": f["check"]})
     if ctx.thorough() and ok:
         ctx.leanchecker(MODULES)
 
